@@ -79,7 +79,7 @@ where
 
 /-- every stored item outside the legacy keys survives an upgrade of these six contracts unchanged -/
 theorem simple_untouched {k : Kind} (hk : k = .neofsid ∨ k = .audit ∨ k = .reputation ∨ k = .proxy ∨ k = .neofs ∨
-    k = .processing) {v h : Int} {args : List Item} {s s' : Store} (hm : migrate k v args h s = some s')
+    k = .processing) {v : Int} {env : Env} {args : List Item} {s s' : Store} (hm : migrate k v args env s = some s')
     (q : Bytes) (hq : q ∉ legacyKeys) : get s' q = get s q := by
   have sub : ∀ (extra : List Bytes), (∀ x ∈ extra, x ∈ legacyKeys) → q ∉ notaryKey :: voteKey :: extra := by
     intro extra he hmem
@@ -93,7 +93,7 @@ theorem simple_untouched {k : Kind} (hk : k = .neofsid ∨ k = .audit ∨ k = .r
     simp only [migrate, neofsidMigrate] at hm
     by_cases hv : v < 17000
     · simp only [hv, if_true] at hm
-      cases h1 : switchToNotary [containerHashKey] true s h with
+      cases h1 : switchToNotary [containerHashKey] true s env.height with
       | none => rw [h1] at hm; cases hm
       | some s1 =>
         rw [h1] at hm
